@@ -84,6 +84,9 @@ def run(tier, rep, ev):
         hs = [json.loads(b) if isinstance(b, str) else b for b in g.prints.get("BEH", [])]
         if tier == "quick" and len(hs) > 500:
             hs = R.sample(hs, 500)
+        elif len(hs) > 12000:
+            hs = R.sample(hs, 12000)        # thorough: a bounded sample of the larger enumeration (every history executes real sessions)
+        ev.cov.setdefault("histories_enumerated", {})[f"calls<={calls},sessions<={sess}"] = len(g.prints.get("BEH", []))
         for i, h in enumerate(hs):
             opts = {"target": "stream" if i % 2 else "path",
                     "filters_by_session": {s: R.choice(CHAINS) for s in (1, 2, 3)},
